@@ -432,6 +432,27 @@ def check_c10(tier, replay=None):
                 parts[4] = str(h)
                 parts[5] = "60"
                 go_case(cases, " ".join(parts), 1, "plain", mode="fifty", w=3, why="fifty-move threshold, all root moves")
+        # (3b) castling is NOT a clock-resetting move: castling as the searched root move at every clock, castling in the supplied
+        #      history in front of a quiet move, and all root moves (castling among them) around the threshold
+        croots = [("4k3/8/8/8/8/8/8/R3K2R w KQ - 0 1", [("e1g1", "e8d7", "g1h1"), ("e1c1", "e8f7", "c1b1")]),
+                  ("r3k2r/8/8/8/8/8/8/4K3 b kq - 0 1", [("e8g8", "e1d2", "g8h8"), ("e8c8", "e1f2", "c8b8")]),
+                  ("4k3/7p/8/8/8/8/P7/R3K2R w KQ - 0 1", [("e1g1", "e8d7", "g1h1"), ("e1c1", "e8f7", "c1b1")])]
+        for f, lines in croots:
+            for h in (range(0, 151) if T else list(range(0, 90, 9)) + list(range(90, 112))):
+                parts = f.split(" ")
+                parts[4] = str(h)
+                parts[5] = str(max(int(parts[5]), h // 2 + 1))
+                ff = " ".join(parts)
+                cas, reply, quiet_after = lines[h % 2]
+                go_case(cases, ff, 1, "plain", mode="fifty", sm=[cas], w=1, why="fifty-move sweep, castling as the root move (the clock goes on)")
+                go_case(cases, ff, 1, "plain", mode="fifty", moves=[cas, reply], sm=[quiet_after], w=1,
+                        why="fifty-move sweep, castling in the supplied history (the clock goes on)")
+            for h in (97, 98, 99, 100):
+                parts = f.split(" ")
+                parts[4] = str(h)
+                parts[5] = "60"
+                go_case(cases, " ".join(parts), 1, "plain", mode="fifty", w=3, why="fifty-move threshold, all root moves incl. castling")
+                go_case(cases, " ".join(parts), 3, "plain", mode="fifty", w=5, why="fifty-move threshold reached inside the search, castling in the line")
     rule = ("(1) count_repetitions (hook H3) on every equality pattern of histories of length 0..9 (thorough 0..12) x every half-move clock 0..15 x index offsets, "
             "against Draws!CountRepetitionsSpec; (2) go depth 1 searchmoves m after position ... moves <history> for generated histories in which pieces shuttle "
             "(repetitions at distances 4..40, irreversible pawn pushes injected, start FENs with clocks/move numbers up to 2400): TLC decides from the history as "
